@@ -190,7 +190,7 @@ def read_events(path):
 
 
 def sim_link(argv, workdir, plan, tag="run", env_extra=None, timeout=120, wild=None, pin=True,
-             wait_descendants=True, preexec=None, pass_fds=(), ctl_dir=None):
+             wait_descendants=True, preexec=None, pass_fds=(), ctl_dir=None, driver=None):
     """Runs the simulated wild with `argv` (arguments after the program name) in `workdir` under
     `plan`. Returns a RunResult. Waits for wild's background (forked) worker too."""
     wild = wild or SIM_WILD
@@ -210,6 +210,9 @@ def sim_link(argv, workdir, plan, tag="run", env_extra=None, timeout=120, wild=N
     env["WILD_SIM_PLAN"] = plan_path
     env["WILD_VERIF_HASH_SEED"] = str(plan.hash_seed)
     env["RAYON_NUM_THREADS"] = "2"
+    # Number of CPUs the simulated machine has (rayon's default pool size, used by wild when
+    # --threads=1 or no --threads is given): derived from the plan so that it is replayed.
+    env["WILD_SIM_DEFAULT_THREADS"] = str([1, 2, 3, 4][plan.seed % 4])
     env["LC_ALL"] = "C"
     if env_extra:
         for k, v in env_extra.items():
@@ -220,7 +223,7 @@ def sim_link(argv, workdir, plan, tag="run", env_extra=None, timeout=120, wild=N
     cmd = ["setarch", "x86_64", "-R"]
     if pin:
         cmd += ["taskset", "-c", str(my_cpu())]
-    cmd += [wild] + list(argv)
+    cmd += (list(driver) if driver else [wild]) + list(argv)
     r = RunResult()
     t0 = time.time()
     # Liveness pipe: stays open in wild and everything it forks; EOF when all of them are gone.
@@ -276,7 +279,7 @@ def sim_link(argv, workdir, plan, tag="run", env_extra=None, timeout=120, wild=N
 def check_sim_health(r, what):
     """Raises HarnessError for outcomes that indicate a harness problem rather than a wild
     behaviour."""
-    if r.status == EXIT_HARNESS:
+    if r.status == EXIT_HARNESS or "simrt: harness error" in r.err_text():
         raise HarnessError(f"{what}: simrt harness error: {r.err_text()[:500]}")
     if r.timed_out:
         raise HarnessError(f"{what}: wall-clock timeout")
